@@ -852,7 +852,7 @@ def r4(rep, c):
                    o.get("kind") == "arg" and o.get("n") == 3 and g.locals[3] == "&str" and
                    [p for p in o.get("proj", []) if p not in ("*", "&")] == [],
                    f"{o.get('kind')} {o.get('place', '')}", g.loc(call.bb))
-    rep.floor("R29.4", "header calls in type_* callbacks", ncall, 13)
+    rep.floor("R29.4", "header calls in type_* callbacks", ncall, 15)
     # the named types of every rendered interface / world are all defined (anchored) in the document
     nent = 0
     for g in c.fns.values():
